@@ -326,6 +326,65 @@ def mutant_env(variant):
     return {"CHIBI_MODULE_PATH": d + ":" + build.env_for(variant)["CHIBI_MODULE_PATH"]}
 
 
+def _stamp(variant):
+    try:
+        return open(os.path.join(build.BUILD, variant, "STAMP")).read()
+    except OSError:
+        return None
+
+
+def run_stable(variant, path, d, n_lines):
+    """evalbatch, repeated when the build variant was rebuilt underneath the run (other checks share
+    /verif/build and rebuild it whenever /repo changes): a missing binary, or an abnormal end together
+    with a changed STAMP, is not evidence about the interpreter."""
+    res = common.Result(-1, "evalbatch could not be started (variant being rebuilt?)")
+    for attempt in range(4):
+        before = _stamp(variant)
+        try:
+            res = common.evalbatch(variant, [path], timeout=1500, cwd=d, env=mutant_env(variant))
+        except OSError:
+            time.sleep(20)
+            continue
+        complete = sum(1 for l in res.out.split("\n") if l[:1].isdigit()) >= n_lines
+        if (res.rc != 0 or not complete) and _stamp(variant) != before:
+            time.sleep(20)
+            continue
+        return res
+    return res
+
+
+def judge(orc, s, tok, tab=None):
+    """one printed result 'Tm/s' against the oracle -> (problems, parsed matches, parsed search, search text),
+    or None when the token cannot be parsed.  problems: [(op, got, want)]"""
+    if tab is None:
+        tab = orc.d.table(s)
+    n = len(s)
+    want_m = n in tab[0]
+    want_s = any(tab)
+    if "E" in tok:
+        return [("error", tok, "no error")], None, None, tok
+    mo = _span_re.match(tok)
+    if not mo:
+        return None
+    try:
+        pm = parse_match(mo.group(2))
+        ps = parse_match(mo.group(3))
+    except ValueError:
+        return None
+    probs = []
+    if mo.group(1) and (mo.group(1) == "T") != want_m:
+        probs.append(("matches?", "#t" if mo.group(1) == "T" else "#f", "#t" if want_m else "#f"))
+    if (pm is not None) != want_m:
+        probs.append(("matches", "a match" if pm else "#f", "a match" if want_m else "#f"))
+    elif pm is not None:
+        probs += orc.check_spans("matches", pm, s, tab)
+    if (ps is not None) != want_s:
+        probs.append(("search", "a match" if ps else "#f", "a match" if want_s else "#f"))
+    elif ps is not None:
+        probs += [p for p in orc.check_spans("search", ps, s, tab) if p[0] != "note-count"]
+    return probs, pm, ps, mo.group(3)
+
+
 def run_job(arg):
     variant, job = arg
     bi, sn, un, lo, hi = job
@@ -336,7 +395,7 @@ def run_job(arg):
     d = common.scratch_dir("c20")
     path = os.path.join(d, "job.scm")
     common.write_file(path, driver_text(terms, subs, both))
-    res = common.evalbatch(variant, [path], timeout=1500, cwd=d, env=mutant_env(variant))
+    res = run_stable(variant, path, d, len(terms))
     shutil.rmtree(d, ignore_errors=True)
     lines = []
     for l in res.out.split("\n"):
@@ -389,43 +448,23 @@ def run_job(arg):
             if 0 < acc < (n + 1) * (n + 2) // 2:
                 out["nontrivial"] += 1
             bump("matches=%s search=%s" % ("#t" if want_m else "#f", "#t" if want_s else "#f"))
-            if "E" in tok:
-                mism(t, s, "error", tok, "no error")
-                continue
-            mo = _span_re.match(tok)
-            if not mo:
+            verdict = judge(orc, s, tok, tab)
+            if verdict is None:
                 out["crash"] = (res.rc, "unparsable result %r for %s on %r" % (tok, orc.text, s), res.out[-800:])
                 break
-            try:
-                pm = parse_match(mo.group(2))
-                ps = parse_match(mo.group(3))
-            except ValueError:
-                out["crash"] = (res.rc, "unparsable result %r for %s on %r" % (tok, orc.text, s), res.out[-800:])
-                break
-            if mo.group(1):
-                if (mo.group(1) == "T") != want_m:
-                    mism(t, s, "matches?", mo.group(1), "#t" if want_m else "#f")
-            if (pm is not None) != want_m:
-                mism(t, s, "matches", "a match" if pm else "#f", "a match" if want_m else "#f")
-            elif pm is not None:
-                for op, got, want in orc.check_spans("matches", pm, s, tab):
-                    if op == "note-count":
-                        bump("regexp-match-count differs from the number of ($ ..)/(-> ..) in the SRE")
-                    else:
-                        mism(t, s, op, got, want)
-            if (ps is not None) != want_s:
-                mism(t, s, "search", "a match" if ps else "#f", "a match" if want_s else "#f")
-            elif ps is not None:
-                for op, got, want in orc.check_spans("search", ps, s, tab):
-                    if op != "note-count":
-                        mism(t, s, op, got, want)
+            probs, pm, ps, stxt = verdict
+            for op, got, want in probs:
+                if op == "note-count":
+                    bump("regexp-match-count differs from the number of ($ ..)/(-> ..) in the SRE")
+                else:
+                    mism(t, s, op, got, want)
             for pr in (pm, ps):
                 if pr is not None and len(pr[0]) > 1:
                     nset = sum(1 for x in pr[0][1:] if x is not None)
                     bump("submatch spans set", nset)
                     bump("submatch spans unset", len(pr[0]) - 1 - nset)
             if out["sample"] is None and want_s and not want_m and orc.subs and n >= 3:
-                out["sample"] = "(regexp-search '%s %s) => %s" % (orc.text, sstr(s), mo.group(3))
+                out["sample"] = "(regexp-search '%s %s) => spans %s" % (orc.text, sstr(s), stxt)
         if out["crash"]:
             break
         out["sres_done"] += 1
@@ -456,7 +495,7 @@ def run_single(variant, sre_text, s):
     d = common.scratch_dir("c20r")
     path = os.path.join(d, "one.scm")
     common.write_file(path, single_text(sre_text, s))
-    res = common.evalbatch(variant, [path], timeout=600, cwd=d, env=mutant_env(variant))
+    res = common.evalbatch(variant, [path], timeout=1500, cwd=d, env=mutant_env(variant))
     shutil.rmtree(d, ignore_errors=True)
     for l in res.out.split("\n"):
         if l.startswith("0 "):
@@ -464,12 +503,38 @@ def run_single(variant, sre_text, s):
     return "rc=%s %s" % (res.rc, res.out[-300:])
 
 
+def _tuple(x):
+    return tuple(_tuple(y) for y in x) if isinstance(x, list) else x
+
+
 def replay(path):
+    """re-run one recorded case alone; exit status 1 when the violation shows again"""
+    import json
     build.build_variant("opt")
-    res = common.evalbatch("opt", [path], timeout=900, env=mutant_env("opt"))
-    print(res.out)
-    print(open(path).read().split(";; expected:")[-1] if ";; expected:" in open(path).read() else "")
-    return 0
+    meta = json.load(open(path + ".json"))
+    if "term" not in meta:
+        res = common.evalbatch("opt", [path], timeout=1500, env=mutant_env("opt"))
+        print(res.out)
+        return 1
+    t = _tuple(meta["term"])
+    s = meta["subject"] or ""
+    tok = run_single("opt", M.to_scheme(t), s)
+    orc = Oracle(t)
+    tab = orc.d.table(s)
+    print("SRE %s   subject %s" % (orc.text, sstr(s)))
+    print("printed (regexp-matches? T/F, regexp-matches spans / regexp-search spans): %s" % tok)
+    print("oracle: matches=%s search=%s  accepted (start -> ends): %s" % (
+        len(s) in tab[0], any(tab), {i: sorted(e) for i, e in enumerate(tab) if e}))
+    verdict = judge(orc, s, tok, tab)
+    if verdict is None:
+        print("VIOLATION reproduced: abnormal output")
+        return 1
+    probs = [p for p in verdict[0] if p[0] != "note-count"]
+    for op, got, want in probs:
+        print("VIOLATION reproduced: %s: got %s, want %s" % (op, got, want))
+    if not probs:
+        print("no violation this time")
+    return 1 if probs else 0
 
 
 # ------------------------------------------------------------------------------------------ main
@@ -555,7 +620,7 @@ def main(tier):
                 sstr(subjects_for(b["subjects"])[1]), sstr(subjects_for(b["subjects"])[-1])), cap=24)
     chk.cov["jobs_completed"] = done
     chk.cov["jobs_total"] = len(jobs)
-    chk.cov["sres_distinct"] = sum(b["sres"] for b in blocks if b["completed"] and b["subjects"] in ("S4X", "S4", "X", "S3"))
+    chk.cov["sres_distinct"] = sum({b["stratum"]: b["sres"] for b in blocks if b["completed"]}.values())
     comp = [("%s x %s" % (b["stratum"], b["subjects"])) for b in blocks if b["completed"]]
     part = [("%s x %s: %d of %d jobs (a prefix in enumeration order)" % (b["stratum"], b["subjects"], b["jobs_done"], b["jobs"]))
             for b in blocks if not b["completed"] and b["jobs_done"]]
@@ -596,11 +661,14 @@ def main(tier):
         sre_text = M.to_scheme(src)
         alone = run_single(variant, sre_text, s if s is not None else "")
         others = [M.to_scheme(m) for m in members if m is not src]
-        desc = {"op": op, "family": family(src), "sre": sre_text, "culprit": M.to_scheme(culprit), "subject": s, "got": got, "want": want,
-                "alone": alone, "failing_subjects": cnt, "other_examples": exs[1:],
+        v = judge(Oracle(src), s if s is not None else "", alone)
+        again = v is None or any(p[0] != "note-count" for p in v[0])
+        desc = {"op": op, "family": family(src), "term": src, "sre": sre_text, "culprit": M.to_scheme(culprit), "subject": s, "got": got, "want": want,
+                "alone": alone, "reproduces_alone": again, "failing_subjects": cnt, "other_examples": exs[1:],
                 "larger_sres_attributed": len(others), "larger_examples": others[:5]}
-        what = "%s [family: %s]: %s on %s: got %s, want %s  [alone in a fresh process the case prints %s; %d mismatches on this SRE; %d further failing SREs attributed to it, e.g. %s]" % (
-            op, family(src), sre_text, sstr(s) if s is not None else "-", got, want, alone, cnt, len(others), ", ".join(others[:2]) or "-")
+        what = "%s [family: %s]: %s on %s: got %s, want %s  [alone in a fresh process the case prints %s (%s); %d mismatches on this SRE; %d further failing SREs attributed to it, e.g. %s]" % (
+            op, family(src), sre_text, sstr(s) if s is not None else "-", got, want, alone,
+            "reproduces" if again else "does NOT reproduce: history or hash-order dependent", cnt, len(others), ", ".join(others[:2]) or "-")
         chk.violation(desc, what, single_text(sre_text, s if s is not None else "") +
                       ";; expected: %s -- %s, got %s\n" % (op, want, got))
     for job, (rc, why, tail) in crashes:
